@@ -593,3 +593,65 @@ def _bool_source_local(body, l, depth=0):
         if rv["k"] == "use" and rv["op"]["k"] in ("copy", "move") and not rv["op"]["place"]["proj"]:
             return _bool_source_local(body, rv["op"]["place"]["local"], depth + 1)
     return l
+
+
+# ------------------------------------------------------------------ exit-status success (shared by C02 / C05 / C07)
+def _is_success_call(d):
+    return d[0] == "call" and d[1].endswith("ExitStatus::success")
+
+
+def exit_success_edges(body):
+    """edges of `body` on which a process exit status is known to be a success: the true edge of `status.success()`, or the `0` edge of a match on
+    `status.code()` (reached under `Some`). Returns (success edges, failure edges)."""
+    ok, ko = [], []
+    for e in body.edges:
+        l = e.label
+        if not l:
+            continue
+        if l[0] == "bool" and l[2] is not None:
+            ds = bool_atom_desc(body, l[2])
+            if any(_is_success_call(d) for d in ds):
+                (ok if l[1] else ko).append(e)
+            elif any(d[0] == "not" and any(_is_success_call(x) for x in d[1]) for d in ds):
+                (ko if l[1] else ok).append(e)
+        elif l[0] in ("val", "val-otherwise") and l[2] is not None:
+            if origin_matches(origins(body, l[2]), lambda o: o[0] == "call" and o[1].endswith("ExitStatus::code")):
+                if l[0] == "val" and l[1] == 0:
+                    ok.append(e)
+                else:
+                    ko.append(e)
+        elif l[0] == "variant" and l[3] and set(l[2]) == {"None"}:
+            if origin_matches(origins(body, l[3]["local"]), lambda o: o[0] == "call" and o[1].endswith("ExitStatus::code")):
+                ko.append(e)
+    return ok, ko
+
+
+def success_checker(f, fn_name, depth=0):
+    """a local fn returning Result whose Ok is constructed only where the exit status is known to be a success, and that has an Err exit (a
+    `check(status)?` helper). Judged on its own view."""
+    if fn_name not in f.bodies or depth > 3:
+        return False
+    fb = f.view(f.coroutine_of(fn_name) or f.bodies[fn_name])
+    G, _ = success_region(f, fb, depth + 1)
+    oks = fb.aggregates("Result", "Ok")
+    return bool(oks) and all(bb in G for bb, st in oks) and bool(fb.aggregates("Result", "Err") or [1 for bb, t in fb.calls() if "anyhow" in callee_base(t)])
+
+
+def success_region(f, body, depth=0):
+    """(blocks of `body` only reachable when the exit status is a success, blocks reachable from a failure edge): through a direct test, or through the
+    Continue edge of a `?` applied to the result of a success_checker helper (which may itself be spliced into this view)"""
+    ok, ko = exit_success_edges(body)
+    G = set()
+    for e in ok:
+        G |= body.dominated_by_edge(e)
+    for (tb, sb, ce, be) in try_edges(body):
+        if ce is None or not body.term(tb)["args"]:
+            continue
+        o = origins(body, operand_local(body.term(tb)["args"][0])) if operand_local(body.term(tb)["args"][0]) is not None else []
+        callees = {x[1] for x in o if x[0] in ("call", "await") and x[1]}
+        if any(c in f.bodies and success_checker(f, c, depth) for c in callees):
+            G |= body.dominated_by_edge(ce)
+    F = set()
+    for e in ko:
+        F |= body.reach_from(e.dst) | {e.dst}
+    return G, F
